@@ -15,7 +15,8 @@ from . import VERIF, REPO
 from .kernel import HarnessError, RunTimeout, Violation
 from .rng import Rng, run_seed
 
-RUN_TIMEOUT_S = 60.0
+RUN_TIMEOUT_S = 90.0       # CPU seconds one run may use (ITIMER_PROF: a busy machine does not trip it)
+RUN_WALL_TIMEOUT_S = 900.0  # wall-clock seconds one run may take whatever the load
 RUN_MEM_LIMIT = 6 << 30
 EVIDENCE_DIR = os.path.join(VERIF, "evidence")
 REPLAY_DIR = os.path.join(VERIF, "replays")
@@ -92,6 +93,7 @@ def run_block(prop, tier, verif_seed, indices, deadline):
         raise RunTimeout()
 
     signal.signal(signal.SIGALRM, _alarm)
+    signal.signal(signal.SIGPROF, _alarm)
     from . import import_library
 
     import_library()
@@ -105,15 +107,18 @@ def run_block(prop, tier, verif_seed, indices, deadline):
         if time.time() > deadline:
             agg["skipped"] += 1
             continue
-        signal.setitimer(signal.ITIMER_REAL, RUN_TIMEOUT_S)
+        signal.setitimer(signal.ITIMER_REAL, RUN_WALL_TIMEOUT_S)
+        signal.setitimer(signal.ITIMER_PROF, RUN_TIMEOUT_S)
         try:
             case, res = one_run(scen, tier, verif_seed, i)
         except (RunTimeout, MemoryError, RecursionError) as e:
             signal.setitimer(signal.ITIMER_REAL, 0)
+            signal.setitimer(signal.ITIMER_PROF, 0)
             raise HarnessError("run %d of %s (%s tier, VERIF_SEED=%s) hit the per-run watchdog: %s" % (
                 i, prop, tier, verif_seed, type(e).__name__))
         finally:
             signal.setitimer(signal.ITIMER_REAL, 0)
+            signal.setitimer(signal.ITIMER_PROF, 0)
         agg["evaluations"] += 1
         agg["units"] += res.get("units", 1)
         agg["events"] += res.get("steps", 0)
